@@ -1,0 +1,21 @@
+//go:build verif
+
+// Contracts for the deductive verifier in /verif (comment-only; compiled only with -tags verif).
+
+package cache
+
+// C14: which cache sits in front of the chain store. No type or "noop" gives the cache that stores
+// nothing; "lru" gives the LRU cache with exactly the configured size and lifetime, both of which
+// must be non-negative; any other type is refused.
+//@ func NewIssuanceChainCache
+//@ props C14
+//@ modifies nothing
+//@ frame-trusted the constructors it calls open a connection or allocate a cache; nothing the caller can see is written
+//@ arith int
+//@ site lru.NewIssuanceChainCache#1 as mk
+//@ ensures [no-type-or-noop-caches-nothing] cacheType == Unknown || cacheType == NOOP ==> result1 == nil && typeof(result0) == *noop.IssuanceChainCache && !mk.called
+//@ ensures [lru-with-the-configured-size-and-lifetime] cacheType == LRU && option.Size >= 0 && option.TTL >= 0 ==> mk.called && result1 == nil && typeof(result0) == *lru.IssuanceChainCache && as(result0, *lru.IssuanceChainCache) == mk.res
+//@ ensures [negative-size-or-lifetime-is-refused] cacheType == LRU && (option.Size < 0 || option.TTL < 0) ==> result0 == nil && result1 != nil && !mk.called
+//@ ensures [unknown-type-is-refused] cacheType != Unknown && cacheType != NOOP && cacheType != LRU ==> result0 == nil && result1 != nil
+//@ ensures [a-cache-or-an-error] result1 == nil ==> result0 != nil
+//@ at mk assert [size-and-lifetime-passed-on] mk.opt.Size == option.Size && mk.opt.TTL == option.TTL
